@@ -91,6 +91,9 @@ def _content(body, keep):
 	if t in ('list', 'tuple', 'gen'):
 		strs = body.get('strs') or [False] * len(items)
 		objs = [(x.decode('utf-8') if s else x) for x, s in zip(items, strs)]
+		via = body.get('via')
+		if via:
+			return _via(t, via, objs)
 		if t == 'list':
 			return objs
 		if t == 'tuple':
@@ -109,6 +112,48 @@ def _content(body, keep):
 		keep.append((fd, tmp.name))
 		return fd
 	raise ValueError(t)
+
+
+class _ReIterable(object):
+	"""an application object that can be iterated any number of times (no list, no tuple, no generator)"""
+
+	def __init__(self, objs):
+		self.objs = list(objs)
+
+	def __iter__(self):
+		return iter(list(self.objs))
+
+
+def _genfunc(objs):
+	for x in objs:
+		yield x
+
+
+def _via(t, via, objs):
+	"""(11) the same pieces handed over as another iterable type.  t = 'gen': one-shot iterators that Body documents ('any iterable returning bytes/unicode') and
+	recognises as generators (a generator function, a generator expression over zip, iter(list)); t = 'list': re-iterable containers that are neither list nor tuple"""
+	import collections
+	if t == 'gen':
+		if via == 'iterlist':
+			return iter(list(objs))
+		if via == 'genfunc':
+			return _genfunc(list(objs))
+		if via == 'zipgen':
+			return (a for a, _ in zip(objs, range(len(objs))))
+		if via == 'nested':
+			return (y for x in [objs[:1], objs[1:]] for y in x)
+	if t == 'list':
+		if via == 'deque':
+			return collections.deque(objs)
+		if via == 'reiter':
+			return _ReIterable(objs)
+		if via == 'dictkeys' and len(set(objs)) == len(objs):
+			return dict.fromkeys(objs).keys()
+		if via == 'dict' and len(set(objs)) == len(objs):
+			return collections.OrderedDict.fromkeys(objs)
+		if via == 'listsub':
+			return type('PieceList', (list,), {})(objs)
+	raise ValueError((t, via))
 
 
 def body_items(body):
@@ -322,6 +367,8 @@ def build(case, keep):
 	from httoop.semantic.response import ComposedResponse
 	if case.get('route'):
 		return _routed(case, keep, case['route'])
+	if case.get('w5'):
+		return _build5(case, keep)
 	# two ways of building the same message through the public API: attribute assignment after construction, or (for one case in
 	# three, chosen by a checksum of the case so that a replay builds it the same way) headers, body and protocol as constructor arguments
 	import json as _json
@@ -377,6 +424,528 @@ def build(case, keep):
 		if (case['k'] == 'req' or case.get('body_coding')) and case['coding'] in ('gzip', 'deflate'):
 			m.body.content_encoding = case['coding']
 	return m, c
+
+
+# ---------------------------------------------------------------- fifth wave: aliasing, argument types, refused operations, knobs, order of calls
+ARGS = []      # (what, snapshot when handed over, function that takes the snapshot again): argument objects of the application, which must stay as they were
+REFUSED = []   # [name of the refused operation, exception type or None]
+
+
+class _Str(object):
+	"""an application object that has a text and an octet form"""
+
+	def __init__(self, raw):
+		self.raw = bytes(raw)
+
+	def __str__(self):
+		return self.raw.decode('ISO8859-1')
+
+	def __bytes__(self):
+		return self.raw
+
+
+def _watch(what, obj, snap):
+	ARGS.append((what, snap(), snap))
+	return obj
+
+
+def _hval(raw, form):
+	if form == 'str':
+		return raw.decode('ISO8859-1')
+	if form == 'bytearray':
+		return bytearray(raw)
+	if form == 'memoryview':
+		return memoryview(raw)
+	if form == 'obj':
+		return _Str(raw)
+	return raw
+
+
+def _pairs_arg(pairs, form, what):
+	"""the (name, value) pairs as the mapping / iterable type `form`; re-iterable ones are watched"""
+	import collections
+	import itertools
+	import types
+	pairs = [tuple(p) for p in pairs]
+	snap_items = lambda o: (lambda: repr([(k, bytes(v) if isinstance(v, (bytes, bytearray, memoryview)) else str(v)) for k, v in o.items()]))
+	if form == 'dict':
+		o = dict(pairs)
+		return _watch(what, o, snap_items(o))
+	if form == 'odict':
+		o = collections.OrderedDict(pairs)
+		return _watch(what, o, snap_items(o))
+	if form == 'chainmap':
+		o = collections.ChainMap(dict(pairs))
+		return _watch(what, o, snap_items(o))
+	if form == 'mappingproxy':
+		return types.MappingProxyType(dict(pairs))
+	if form == 'items':
+		return dict(pairs).items()
+	if form == 'Headers':
+		from httoop.header import Headers
+		o = Headers(dict(pairs))
+		return _watch(what, o, lambda: repr(sorted((k, bytes(v)) for k, v in dict.items(o))))
+	if form == 'list':
+		o = list(pairs)
+		return _watch(what, o, lambda: repr(o))
+	if form == 'lol':
+		o = [list(p) for p in pairs]
+		return _watch(what, o, lambda: repr(o))
+	if form == 'tuple':
+		return tuple(pairs)
+	if form == 'iter':
+		return iter(pairs)
+	if form == 'gen':
+		return (p for p in pairs)
+	if form == 'map':
+		return map(tuple, pairs)
+	if form == 'chain':
+		return itertools.chain(pairs[:1], pairs[1:])
+	if form == 'deque':
+		return collections.deque(pairs)
+	raise ValueError(form)
+
+
+def _seq_arg(items, form, what):
+	import collections
+	if form == 'list':
+		o = list(items)
+		return _watch(what, o, lambda: repr(o))
+	if form == 'tuple':
+		return tuple(items)
+	if form == 'iter':
+		return iter(list(items))
+	if form == 'gen':
+		return (x for x in items)
+	if form == 'map':
+		return map(str, items)
+	if form == 'deque':
+		return collections.deque(items)
+	raise ValueError(form)
+
+
+def uri_text(case):
+	"""the absolute URI of the case written by an independent RFC 3986 writer (urllib): ASCII text"""
+	from urllib.parse import quote
+	s = ''
+	if case.get('host'):
+		s = 'http://' + case['host'] + (':%d' % case['port'] if case.get('port') else '')
+	s += '/'.join(quote(x, safe="!$&'()*+,;=:@-._~") for x in case['segs'])
+	if case.get('query'):
+		s += '?' + '&'.join('%s=%s' % (quote(k, safe=''), quote(v, safe='')) for k, v in case['query'])
+	return s
+
+
+def _uri_arg(case, form):
+	from urllib.parse import quote
+	from httoop import URI
+	text = uri_text(case)
+	if form == 'str':
+		return text
+	if form == 'bytes':
+		return text.encode('ascii')
+	if form == 'URI':
+		o = URI(text)
+		return _watch('URI object', o, lambda: repr(bytes(o)))
+	qs = '&'.join('%s=%s' % (quote(k, safe=''), quote(v, safe='')) for k, v in case.get('query') or [])
+	parts = ('http' if case.get('host') else '', '', '', case.get('host') or '', case.get('port'), '/'.join(case['segs']), qs, '')
+	if form == 'tuple':
+		return parts
+	if form == 'dict':
+		o = dict(zip(('scheme', 'username', 'password', 'host', 'port', 'path', 'query_string', 'fragment'), parts))
+		return _watch('URI dict', o, lambda: repr(sorted(o.items(), key=lambda kv: kv[0])))
+	raise ValueError(form)
+
+
+def _proto_arg(version, form):
+	from httoop.messages.protocol import Protocol
+	v = tuple(version)
+	if form == 'list':
+		o = list(v)
+		return _watch('protocol list', o, lambda: repr(o))
+	if form == 'str':
+		return 'HTTP/%d.%d' % v
+	if form == 'bytes':
+		return b'HTTP/%d.%d' % v
+	if form == 'Protocol':
+		o = Protocol(v)
+		return _watch('Protocol object', o, lambda: repr(bytes(o)))
+	return v
+
+
+def _status_arg(case, form):
+	from httoop import Response
+	code, reason = case['status'], case.get('reason')
+	if reason is None:
+		if form == 'Status':
+			return Response(code).status
+		if form == 'float':
+			return float(code)
+		return code
+	if form == 'tuplebytes':
+		return (code, reason.encode('ascii'))
+	if form == 'strline':
+		return '%d %s' % (code, reason)
+	if form == 'bytesline':
+		return b'%d %s' % (code, reason.encode('ascii'))
+	if form == 'Status':
+		r = Response()
+		r.status = (code, reason)
+		return r.status
+	return (code, reason)
+
+
+def refusals(is_req):
+	"""(12) operations that the public API refuses with an exception (each one observed to raise on the tree as found): name -> function of the message.
+	Kept OUT (reported in notes/reports/C04.md, observations 2026-10-01): refusals that do NOT leave the object as it was on the tree as found -
+	message.headers = <list of pairs / number / dict with an invalid name or a value of a wrong type> (Headers.set clears the fields, then update raises: all
+	fields of the message are gone, the valid ones of the new dict are in); message.uri = 'http://h:x/' (InvalidURI for the port, but scheme, host and path
+	of the message are already replaced); headers.update(dict with an invalid name) keeps the entries before the invalid one (as dict.update does)."""
+	closed = io.BytesIO(b'closed')
+	closed.close()
+	tmp = tempfile.TemporaryFile()
+	tmp.close()
+	ops = {
+		'body = closed BytesIO': lambda m: setattr(m, 'body', closed),
+		'body = closed file': lambda m: setattr(m, 'body', tmp),
+		'body = 5': lambda m: setattr(m, 'body', 5),
+		'body = object()': lambda m: setattr(m, 'body', object()),
+		'body.set(12)': lambda m: m.body.set(12),
+		'body = text with a lone surrogate': lambda m: setattr(m, 'body', u'abc\udc80'),
+		'body.content_encoding = unknown': lambda m: setattr(m.body, 'content_encoding', 'br0tli'),
+		'headers[name with a blank]': lambda m: m.headers.__setitem__('X B', 'v'),
+		'headers[name with a colon]': lambda m: m.headers.__setitem__('X:B', 'v'),
+		'headers[name not ASCII]': lambda m: m.headers.__setitem__(u'X-\xe4', 'v'),
+		'headers[name] = None': lambda m: m.headers.__setitem__('X-A', None),
+		'headers[name] = 1.5': lambda m: m.headers.__setitem__('X-A', 1.5),
+		'headers.append(name, None)': lambda m: m.headers.append('X-A', None),
+		'headers.update(list)': lambda m: m.headers.update([('X-Z', 'z')]),
+		'protocol = HTTP/x.y': lambda m: setattr(m, 'protocol', 'HTTP/x.y'),
+		'protocol = HTTQ/1.1': lambda m: setattr(m, 'protocol', b'HTTQ/1.1'),
+		'protocol = (1, 2, 3)': lambda m: setattr(m, 'protocol', (1, 2, 3)),
+		'protocol = (a, b)': lambda m: setattr(m, 'protocol', ('a', 'b')),
+		'protocol = None': lambda m: setattr(m, 'protocol', None),
+		'protocol = 11': lambda m: setattr(m, 'protocol', 11),
+	}
+	if is_req:
+		ops.update({
+			'method with a blank': lambda m: setattr(m, 'method', 'GE T'),
+			'method empty': lambda m: setattr(m, 'method', ''),
+			'method not ASCII': lambda m: setattr(m, 'method', u'G\xc4T'),
+			'method = None': lambda m: setattr(m, 'method', None),
+			'method = 5': lambda m: setattr(m, 'method', 5),
+			'uri = 5': lambda m: setattr(m, 'uri', 5),
+			'uri = unbalanced IPv6 literal': lambda m: setattr(m, 'uri', 'http://[::1/'),
+			'uri = text not ASCII': lambda m: setattr(m, 'uri', u'http://h/\xe4'),
+			'uri = octets not ASCII': lambda m: setattr(m, 'uri', b'http://h/\xe4'),
+			'uri.port = x': lambda m: setattr(m.uri, 'port', 'x'),
+			'uri.port = 70000': lambda m: setattr(m.uri, 'port', 70000),
+			'uri.port = -1': lambda m: setattr(m.uri, 'port', -1),
+			'uri.query = text': lambda m: setattr(m.uri, 'query', 'a=b'),
+			'uri.query = 5': lambda m: setattr(m.uri, 'query', 5),
+			'uri.query = triples': lambda m: setattr(m.uri, 'query', [('a', 'b', 'c')]),
+			'uri.query = pair with a number': lambda m: setattr(m.uri, 'query', [('a', 5)]),
+			'uri.query = pairs and None': lambda m: setattr(m.uri, 'query', [('a', 'b'), None]),
+			'uri.path_segments = 5': lambda m: setattr(m.uri, 'path_segments', 5),
+			'uri.path_segments with a number': lambda m: setattr(m.uri, 'path_segments', ['', 'a', 5]),
+			'uri.path = 5': lambda m: setattr(m.uri, 'path', 5),
+			'uri.parse(unbalanced IPv6 literal)': lambda m: m.uri.parse(b'http://[/'),
+			'uri.set(short tuple)': lambda m: m.uri.set(('http', 'h')),
+		})
+	else:
+		ops.update({
+			'status = 1000': lambda m: setattr(m, 'status', 1000),
+			'status = 99': lambda m: setattr(m, 'status', 99),
+			'status = 0': lambda m: setattr(m, 'status', 0),
+			'status = -200': lambda m: setattr(m, 'status', -200),
+			'status = abc def': lambda m: setattr(m, 'status', 'abc def'),
+			'status = abc': lambda m: setattr(m, 'status', 'abc'),
+			'status = None': lambda m: setattr(m, 'status', None),
+			'status = 200.5': lambda m: setattr(m, 'status', 200.5),
+			'status = list': lambda m: setattr(m, 'status', [200, 'x']),
+			'status = triple': lambda m: setattr(m, 'status', (200, 'x', 'y')),
+			'status = (abc, x)': lambda m: setattr(m, 'status', ('abc', 'x')),
+			'status.code = abc': lambda m: setattr(m.status, 'code', 'abc'),
+			'status.parse(abc)': lambda m: m.status.parse(b'abc'),
+		})
+	return ops
+
+
+def _build5(case, keep):
+	"""(10) aliasing, (11) argument types, (12) refused operations, (13) configuration knobs, (15) order of the API calls.
+	case['w5']: ctor  - the steps done through constructor arguments, of 'P' protocol, 'S' start line (method and target / status), 'H' header fields, 'B' content
+	            order - the other steps in the order they are done: 'P', 'S', 'H', 'B', 'C' (content coding: the field, and for a request the coding of the Body object)
+	            types - the Python type of each argument (hdrs, hval, method, uri, proto, query, segs, status; the content type is body.t / body.via)
+	            knob  - how the charset of a text body is selected ('encoding', 'mimetype', 'mimetype-bytes', 'bodyctor')
+	            alias - the argument object that this message shares with another message, which is mutated, prepared and composed first
+	            refuse - operations that the API refuses, attempted after the message is complete; failfirst - a first prepare / compose that raises
+	What is composed afterwards must be what a fresh message with the data of the case gives (the oracle of the check compares with the data of the case)"""
+	from httoop import Request, Response
+	from httoop.header import Headers
+	from httoop.messages.body import Body
+	from httoop.semantic.request import ComposedRequest
+	from httoop.semantic.response import ComposedResponse
+	w = case['w5']
+	is_req = case['k'] == 'req'
+	types = w.get('types', {})
+	alias = w.get('alias') or {}
+	how = alias.get('how')
+	first = alias.get('first', {})
+	ctor = list(w.get('ctor', []))
+	order = [s for s in w.get('order', ['P', 'S', 'H', 'B', 'C']) if s not in ctor]
+	body = case['body']
+	cs = body.get('charset')
+	knob = w.get('knob', 'encoding')
+	coding = case.get('coding')
+
+	def composed(m, rmethod='GET'):
+		return ComposedRequest(m) if is_req else ComposedResponse(m, Request(rmethod, '/'))
+
+	def use(other, d):
+		"""another message is prepared and composed to the end"""
+		c0 = composed(other)
+		if d.get('chunked'):
+			c0.chunked = True
+		c0.prepare()
+		return b''.join(c0)
+
+	def content_of(b):
+		content = _content(b, keep)
+		if b.get('t') in ('list', ) and not b.get('via') and content:
+			_watch('content list', content, lambda: repr(content))
+		if cs and knob == 'bodyctor':
+			return Body(content, mimetype='text/plain; charset=%s' % cs)
+		return content
+
+	def hdr_pairs(d, form='bytes'):
+		return [(n, _hval(bytes.fromhex(v), form)) for n, v in d.get('hdrs', [])] + [(n, t) for n, t in d.get('thdrs', [])]
+
+	def set_charset(m):
+		if not cs or knob == 'bodyctor':
+			return
+		if knob == 'mimetype':
+			m.body.mimetype = 'text/plain; charset=%s' % cs
+		elif knob == 'mimetype-bytes':
+			m.body.mimetype = b'text/plain; charset=%s' % cs.encode('ascii')
+		else:
+			m.body.encoding = cs
+
+	def step_start(m, d, t):
+		if is_req:
+			meth = d['method']
+			m.method = meth.encode('ascii') if t.get('method') == 'bytes' else meth
+			uf = t.get('uri', 'parts')
+			if uf == 'parts':
+				u = m.uri
+				if d.get('host'):
+					u.scheme = d.get('scheme', 'http')
+					u.host = d['host']
+					if d.get('port'):
+						u.port = d['port']
+				u.path_segments = _seq_arg(d['segs'], t.get('segs', 'list'), 'path segments list')
+				if d.get('query') is not None:
+					u.query = _pairs_arg(d['query'], t.get('query', 'list'), 'query pairs')
+			else:
+				m.uri = _uri_arg(d, uf)
+		else:
+			m.status = _status_arg(d, t.get('status', 'tuple'))
+
+	def step_hdrs(m, d, t):
+		form = t.get('hdrs')
+		pairs = hdr_pairs(d, t.get('hval', 'bytes'))
+		if form in ('dict', 'odict', 'Headers', 'chainmap', 'mappingproxy'):
+			if t.get('hset') == 'update' or 'Content-Encoding' in m.headers:   # (an application that has selected a coding does not replace the fields as a whole)
+				m.headers.update(_pairs_arg(pairs, form, 'header fields (%s)' % form))
+			else:
+				m.headers = _pairs_arg(pairs, form, 'header fields (%s)' % form)
+		else:
+			for n, v in pairs:
+				m.headers[n] = v
+		for n, v in d.get('happend', []):
+			m.headers.append(n, _hval(bytes.fromhex(v), t.get('hval', 'bytes')))
+
+	def step_coding(m, d):
+		if d.get('coding'):
+			m.headers['Content-Encoding'] = d['coding']
+			if (is_req or d.get('body_coding')) and d['coding'] in ('gzip', 'deflate'):
+				m.body.content_encoding = d['coding']
+
+	def new_message(d, t, ctor, hdr_arg=None, body_arg=None, uri_arg=None, proto_arg=None):
+		"""constructor arguments for the steps of `ctor`, the defaults for the others"""
+		proto = (proto_arg if proto_arg is not None else _proto_arg(d['version'], t.get('proto', 'tuple'))) if 'P' in ctor else None
+		hd = None
+		if hdr_arg is not None:
+			hd = hdr_arg
+		elif 'H' in ctor:
+			hd = _pairs_arg(hdr_pairs(d, t.get('hval', 'bytes')), t.get('hdrs') or 'dict', 'header fields (%s)' % (t.get('hdrs') or 'dict'))
+		bd = body_arg if body_arg is not None else (content_of(d['body']) if 'B' in ctor else None)
+		if is_req:
+			if uri_arg is not None:
+				m = Request(d['method'].encode('ascii') if t.get('method') == 'bytes' else d['method'], uri_arg, hd, bd, proto)
+			elif 'S' in ctor:
+				m = Request(d['method'].encode('ascii') if t.get('method') == 'bytes' else d['method'], _uri_arg(d, t.get('uri', 'str') if t.get('uri', 'str') != 'parts' else 'str'), hd, bd, proto)
+			else:
+				m = Request(None, None, hd, bd, proto)
+		else:
+			st = _status_arg(dict(d, reason=None), t.get('status', 'int') if t.get('status') in ('int', 'float') else 'int') if 'S' in ctor and d.get('reason') is None else None
+			m = Response(st, hd, bd, proto)
+		return m
+
+	def finish(m, d, t, ctor, order):
+		for s in order:
+			if s == 'P':
+				m.protocol = _proto_arg(d['version'], t.get('proto', 'tuple'))
+			elif s == 'S':
+				step_start(m, d, t)
+			elif s == 'H':
+				step_hdrs(m, d, t)
+			elif s == 'B':
+				if d is case:
+					set_charset(m)
+				m.body = content_of(d['body'])
+			elif s == 'C':
+				step_coding(m, d)
+		if not is_req and 'S' in ctor and d.get('reason') is not None:
+			step_start(m, d, t)   # the constructor takes the code only
+		if 'H' not in order:
+			for n, v in d.get('happend', []):
+				m.headers.append(n, _hval(bytes.fromhex(v), t.get('hval', 'bytes')))
+		for name, value in d.get('trailer', []):
+			m.body.trailer[name] = bytes.fromhex(value)
+
+	decoy = _decoy(case, first)
+	if how in ('hdrs', 'hdrs-later'):
+		# ONE argument object with the fields that both messages get (a Headers object, a dict ...)
+		arg = _pairs_arg(hdr_pairs(case, types.get('hval', 'bytes')), types.get('hdrs', 'Headers'), 'header fields (%s) shared by two messages' % types.get('hdrs', 'Headers'))
+		plain = dict(decoy, hdrs=[], thdrs=[])
+		if how == 'hdrs':
+			other = new_message(plain, {}, ['P', 'S', 'B'], hdr_arg=arg)
+			finish(other, plain, {}, ['P', 'S', 'B', 'H'], ['C'])
+			use(other, first)
+			m = new_message(case, types, [s for s in ctor if s != 'H'], hdr_arg=arg)
+			finish(m, case, types, ctor + ['H'], [s for s in order if s != 'H'])
+		else:
+			m = new_message(case, types, [s for s in ctor if s != 'H'], hdr_arg=arg)
+			finish(m, case, types, ctor + ['H'], [s for s in order if s != 'H'])
+			other = new_message(plain, {}, ['P', 'S', 'B'], hdr_arg=arg)
+			finish(other, plain, {}, ['P', 'S', 'B', 'H'], ['C'])
+			for n, _ in case.get('hdrs', [])[:1]:
+				other.headers[n] = b'changed on the other message'
+			other.headers['X-Other'] = b'1'
+			other.headers.append('Accept-Language', 'tlh')
+			use(other, first)
+	elif how == 'parts':
+		# another message is built FROM THE PARTS of this one, then changed in every part, prepared and composed
+		m = new_message(case, types, ctor)
+		finish(m, case, types, ctor, order)
+		if is_req:
+			other = Request(str(m.method), m.uri, m.headers, content_of(decoy['body']), m.protocol)
+			other.method = decoy['method']
+			other.uri.path = u'/changed/on the other'
+			other.uri.query = [('changed', 'x y')]
+			other.uri.host = 'other.example'
+			other.uri.port = 8081
+		else:
+			other = Response(int(m.status), m.headers, content_of(decoy['body']), m.protocol)
+			other.status = (decoy['status'], decoy['reason'])
+		other.protocol = tuple(decoy['version'])
+		for n in list(other.headers.keys()):
+			other.headers[n] = b'changed on the other message'
+		other.headers['X-Other'] = b'1'
+		if first.get('coding'):
+			step_coding(other, dict(decoy, coding=first['coding']))
+		use(other, first)
+	elif how == 'uri':
+		arg = _uri_arg(case, types.get('uri', 'URI'))
+		other = new_message(decoy, {}, ['P', 'H', 'B'], uri_arg=arg)
+		other.uri.path = u'/changed/on the other'
+		other.uri.query = [('changed', 'x y')]
+		other.uri.host = 'other.example'
+		other.uri.port = 8081
+		other.uri.scheme = 'https'
+		use(other, first)
+		m = new_message(case, types, [s for s in ctor if s != 'S'], uri_arg=arg)
+		finish(m, case, types, ctor + ['S'], [s for s in order if s != 'S'])
+	elif how == 'body':
+		# one Body object of the application given to two messages (the first one with a content coding of its own)
+		arg = Body(_content(body, keep), mimetype='text/plain; charset=%s' % cs) if cs else Body(_content(body, keep))
+		other = new_message(decoy, {}, ['P', 'S', 'H'], body_arg=arg)
+		if first.get('coding'):
+			step_coding(other, dict(decoy, coding=first['coding']))
+		use(other, first)
+		m = new_message(case, types, [s for s in ctor if s != 'B'], body_arg=arg)
+		finish(m, case, types, ctor + ['B'], [s for s in order if s != 'B'])
+	elif how == 'proto':
+		arg = _proto_arg(case['version'], types.get('proto', 'Protocol'))
+		other = new_message(decoy, {}, ['S', 'H', 'B'], proto_arg=arg)
+		other.protocol = tuple(decoy['version'])
+		use(other, first)
+		m = new_message(case, types, [s for s in ctor if s != 'P'] + ['P'], proto_arg=arg)
+		finish(m, case, types, ctor + ['P'], [s for s in order if s != 'P'])
+	elif how == 'lists':
+		# the list objects of the path segments and query pairs (and the content list) are given to another message first, which is then changed
+		segs = _seq_arg(case['segs'], 'list', 'path segments list') if is_req else None
+		query = _pairs_arg(case['query'], 'list', 'query pairs list') if is_req and case.get('query') is not None else None
+		content = content_of(body)
+		other = new_message(decoy, {}, ['P', 'S', 'H'])
+		if is_req:
+			other.uri.path_segments = segs
+			if query is not None:
+				other.uri.query = query
+			other.uri.path = other.uri.path + u'/changed'
+			other.uri.query_string = u'changed=1'
+		other.body = content
+		use(other, first)
+		m = new_message(case, types, [s for s in ctor if s not in ('S', 'B')])
+		if is_req:
+			m.method = case['method']
+			u = m.uri
+			if case.get('host'):
+				u.scheme, u.host = 'http', case['host']
+				if case.get('port'):
+					u.port = case['port']
+			u.path_segments = segs
+			if query is not None:
+				u.query = query
+		else:
+			step_start(m, case, types)
+		set_charset(m)
+		m.body = content
+		finish(m, case, types, ctor + ['S', 'B'], [s for s in order if s not in ('S', 'B')])
+	else:
+		m = new_message(case, types, ctor)
+		finish(m, case, types, ctor, order)
+
+	ff = w.get('failfirst')
+	if ff:
+		# a first prepare / compose that raises (a piece that is no octet string; a content generator that raises): the caller repairs the content and sends again
+		def bad():
+			yield b'first piece'
+			raise RuntimeError('the content source failed')
+		m.body = [b'ab', 5, b'cd'] if ff == 'piece' else bad()
+		c0 = composed(m, case.get('rmethod', 'GET'))
+		try:
+			if case.get('chunked'):
+				c0.chunked = True
+			c0.prepare()
+			b''.join(c0)
+			REFUSED.append(['first composition with a broken content (%s)' % ff, None])
+		except Exception as exc:
+			REFUSED.append(['first composition with a broken content (%s)' % ff, type(exc).__name__])
+		set_charset(m)
+		m.body = content_of(body)
+	again = False
+	table = refusals(is_req)
+	for name in w.get('refuse', []):
+		try:
+			table[name](m)
+			REFUSED.append([name, None])
+			again = True   # accepted by this tree: not a refusal; everything is assigned once more, so that the message is the one of the case
+		except Exception as exc:
+			REFUSED.append([name, type(exc).__name__])
+	if again:
+		finish(m, case, types, [], ['P', 'S', 'H', 'B', 'C'])
+	return m, composed(m, case.get('rmethod', 'GET'))
 
 
 def hdr_items(h):
@@ -439,6 +1008,8 @@ def run_ops(case):
 	install()
 	from httoop.header import Headers
 	REC.reset()
+	del ARGS[:]
+	del REFUSED[:]
 	keep = []
 	obs = {}
 	try:
@@ -490,6 +1061,9 @@ def run_ops(case):
 			except Exception as exc:
 				obs['final_content'] = None
 			obs['final_fd'] = fd_obs(m.body)
+			if case.get('w5'):
+				obs['args'] = [[what, before, snap()] for what, before, snap in ARGS]
+				obs['refused'] = list(REFUSED)
 			obs['tables'] = {
 				'comp': [[k[0], k[1].hex(), v.hex()] for k, v in REC.comp.items()],
 				'lsplit': [[k[0].hex(), k[1].hex(), [x.hex() for x in v]] for k, v in REC.lsplit.items()],
